@@ -82,7 +82,15 @@ func (w *vfTWorld) ref(r vivid.ActorRef) string {
 	}
 	w.mu.Lock()
 	defer w.mu.Unlock()
-	role, ok := w.roles[r.GetPath()]
+	role, ok := w.roles[r.GetAddress()+"|"+r.GetPath()]
+	if !ok {
+		// a known path under a foreign address
+		for k, v := range w.roles {
+			if strings.HasSuffix(k, "|"+r.GetPath()) && !strings.HasPrefix(k, "pipe:") {
+				return v + "@WRONG-ADDRESS"
+			}
+		}
+	}
 	if !ok {
 		if strings.Contains(r.GetPath(), "future") || strings.Contains(r.GetPath(), "@") {
 			return "<future>"
@@ -92,9 +100,6 @@ func (w *vfTWorld) ref(r vivid.ActorRef) string {
 		}
 		return "<other " + r.GetPath() + ">"
 	}
-	if w.hosts[r.GetPath()] != r.GetAddress() {
-		return role + "@WRONG-ADDRESS"
-	}
 	return role
 }
 
@@ -102,11 +107,13 @@ func vfTErr(err error) string {
 	if err == nil {
 		return "nil"
 	}
+	// a plain Go error cannot keep its identity on the wire (it arrives as vivid.ErrorException carrying its text): both
+	// forms are rendered as the same failure class, identified by the text the replying actor put into it
 	var ve *vivid.Error
-	if errors.As(err, &ve) {
+	if errors.As(err, &ve) && ve.GetCode() != vivid.ErrorException.GetCode() {
 		return fmt.Sprintf("vivid.Error(%d %q)", ve.GetCode(), ve.GetMessage())
 	}
-	return fmt.Sprintf("%T(%q)", err, err.Error())
+	return fmt.Sprintf("failure(mentions-boom-7=%v)", strings.Contains(err.Error(), "boom-7"))
 }
 
 func (w *vfTWorld) msg(m vivid.Message) string {
@@ -162,6 +169,10 @@ func (a *vfTActor) OnReceive(ctx vivid.ActorContext) {
 			ctx.Reply(&vfCustomMsg{ID: uint64(m.N + 1), Name: "re", Tags: []string{"a", ""}})
 		case "ask-reply-err":
 			ctx.Reply(vivid.ErrorIllegalArgument.WithMessage("bad argument"))
+		case "ask-reply-plainerr":
+			ctx.Reply(errors.New("boom-7"))
+		case "ask-reply-exception":
+			ctx.Reply(vivid.ErrorException.With(errors.New("boom-7")))
 		case "ask-reply-twice":
 			ctx.Reply(&vfTMsg{Kind: "re", N: 1})
 			ctx.Reply(&vfTMsg{Kind: "re", N: 2})
@@ -241,6 +252,7 @@ type vfTScenario struct {
 	NeedCodec bool
 	Steps     []vfTStep
 	LoopTicks bool // log of tgt is compared as a set of distinct lines (tick counts are timing dependent)
+	Equal     [][2]string // pairs of roles on different systems that do the same thing: their logs must be equal within one run
 }
 
 func vfTScenarios() []vfTScenario {
@@ -273,6 +285,9 @@ func vfTScenarios() []vfTScenario {
 			vfTScenario{Name: p + "pipe success to local+remote forwarders", Steps: []vfTStep{pipe(who, "pipe", "tgt", tm("ask-reply", 4), "fwA", "fwB")}},
 			vfTScenario{Name: p + "pipe timeout to local+remote forwarders", Steps: []vfTStep{pipe(who, "pipe", "tgt", tm("ask-noreply", 4), "fwA", "fwB")}},
 			vfTScenario{Name: p + "pipe error reply to local+remote forwarders", Steps: []vfTStep{pipe(who, "pipe", "tgt", tm("ask-reply-err", 4), "fwA", "fwB")}},
+			vfTScenario{Name: p + "ask, reply is a plain Go error", Steps: []vfTStep{step(who, "ask", "tgt", tm("ask-reply-plainerr", 1))}},
+			vfTScenario{Name: p + "pipe plain Go error reply to local+remote forwarders", Steps: []vfTStep{pipe(who, "pipe", "tgt", tm("ask-reply-plainerr", 4), "fwA", "fwB")}},
+			vfTScenario{Name: p + "pipe ErrorException reply to local+remote forwarders", Steps: []vfTStep{pipe(who, "pipe", "tgt", tm("ask-reply-exception", 4), "fwA", "fwB")}},
 			vfTScenario{Name: p + "pipe custom reply", Steps: []vfTStep{pipe(who, "pipe", "tgt", tm("ask-reply-custom", 4), "fwA", "fwB")}},
 			vfTScenario{Name: p + "pipe user-codec reply", NeedCodec: true, Steps: []vfTStep{pipe(who, "pipe", "tgt", tm("ask-reply-user", 4), "fwA", "fwB")}},
 		)
@@ -282,7 +297,11 @@ func vfTScenarios() []vfTScenario {
 		vfTScenario{Name: "watch, then the target is killed by a third actor", Steps: []vfTStep{step("drv", "watch", "tgt", nil), kill("drv2", "tgt", false, "x")}},
 		vfTScenario{Name: "watch, then the target is poison-killed", Steps: []vfTStep{step("drv", "watch", "tgt", nil), kill("drv2", "tgt", true, "x")}},
 		vfTScenario{Name: "watch twice, one OnKilled", Steps: []vfTStep{step("drv", "watch", "tgt", nil), step("drv", "watch", "tgt", nil), kill("drv", "tgt", false, "")}},
-		vfTScenario{Name: "two watchers on different systems", Steps: []vfTStep{step("drv", "watch", "tgt", nil), step("fwB", "watch", "tgt", nil), kill("drv2", "tgt", false, "")}},
+		vfTScenario{Name: "two watchers on different systems", Equal: [][2]string{{"drv", "fwB"}}, Steps: []vfTStep{step("drv", "watch", "tgt", nil), step("fwB", "watch", "tgt", nil), kill("drv2", "tgt", false, "")}},
+		vfTScenario{Name: "twin watchers: the same path on both systems", Equal: [][2]string{{"twA", "twB"}}, Steps: []vfTStep{step("twA", "watch", "tgt", nil), step("twB", "watch", "tgt", nil), kill("drv2", "tgt", false, "")}},
+		vfTScenario{Name: "twin watchers, remote-first", Equal: [][2]string{{"twA", "twB"}}, Steps: []vfTStep{step("twB", "watch", "tgt", nil), step("twA", "watch", "tgt", nil), kill("drv2", "tgt", true, "")}},
+		vfTScenario{Name: "twin watchers, one unwatches", Steps: []vfTStep{step("twA", "watch", "tgt", nil), step("twB", "watch", "tgt", nil), step("twB", "unwatch", "tgt", nil), kill("drv2", "tgt", false, "")}},
+		vfTScenario{Name: "twin watchers, the other unwatches", Steps: []vfTStep{step("twA", "watch", "tgt", nil), step("twB", "watch", "tgt", nil), step("twA", "unwatch", "tgt", nil), kill("drv2", "tgt", false, "")}},
 		vfTScenario{Name: "watch, unwatch, kill: no notice", Steps: []vfTStep{step("drv", "watch", "tgt", nil), step("drv", "unwatch", "tgt", nil), kill("drv2", "tgt", false, "")}},
 		vfTScenario{Name: "Future.PipeTo success", Steps: []vfTStep{pipe("drv", "futpipe", "tgt", tm("ask-reply", 9), "fwA", "fwB")}},
 		vfTScenario{Name: "Future.PipeTo timeout", Steps: []vfTStep{pipe("drv", "futpipe", "tgt", tm("ask-noreply", 9), "fwA", "fwB")}},
@@ -333,9 +352,12 @@ func (p *vfTPair) run(sc vfTScenario, local bool) (map[string][]string, string) 
 	refs := map[string]vivid.ActorRef{}
 	spawn := func(role string, n *vfNode) error {
 		name := fmt.Sprintf("%s-%d", role, p.seq)
+		if role == "twA" || role == "twB" {
+			name = fmt.Sprintf("twin-%d", p.seq) // the same path on both systems
+		}
 		w.mu.Lock()
-		w.hosts["/"+name] = n.adv
-		w.roles["/"+name] = role
+		w.hosts[role] = n.adv
+		w.roles[n.adv+"|/"+name] = role
 		w.mu.Unlock()
 		if _, err := n.sys.ActorOf(&vfTActor{w: w, role: role}, vivid.WithActorName(name)); err != nil {
 			return err
@@ -352,7 +374,7 @@ func (p *vfTPair) run(sc vfTScenario, local bool) (map[string][]string, string) 
 	for _, s := range []struct {
 		role string
 		n    *vfNode
-	}{{"drv", p.a}, {"drv2", p.a}, {"tgt", tgtNode}, {"fwA", p.a}, {"fwB", p.b}} {
+	}{{"drv", p.a}, {"drv2", p.a}, {"tgt", tgtNode}, {"fwA", p.a}, {"fwB", p.b}, {"twA", p.a}, {"twB", p.b}} {
 		if err := spawn(s.role, s.n); err != nil {
 			return nil, "spawn " + s.role + ": " + err.Error()
 		}
@@ -413,7 +435,7 @@ func (p *vfTPair) run(sc vfTScenario, local bool) (map[string][]string, string) 
 			}
 		} else {
 			host := p.a
-			if who == "fwB" {
+			if who == "fwB" || who == "twB" {
 				host = p.b
 				// a ref usable on B
 				if cmd.Target != nil {
@@ -437,11 +459,10 @@ func (p *vfTPair) run(sc vfTScenario, local bool) (map[string][]string, string) 
 	// cleanup
 	for role, r := range refs {
 		n := p.a
-		if w.hosts[r.GetPath()] == p.b.adv {
+		if w.hosts[role] == p.b.adv {
 			n = p.b
 		}
 		lr, _ := n.sys.CreateRef(n.adv, r.GetPath())
-		_ = role
 		n.sys.Kill(lr, false, "cleanup")
 	}
 	w.mu.Lock()
@@ -522,7 +543,7 @@ func TestVerif_transparency(t *testing.T) {
 					continue
 				}
 				diff = ""
-				for _, role := range []string{"drv", "drv2", "tgt", "fwA", "fwB"} {
+				for _, role := range []string{"drv", "drv2", "tgt", "fwA", "fwB", "twA", "twB"} {
 					if strings.Join(lo[role], "\n") != strings.Join(re[role], "\n") {
 						diff += fmt.Sprintf("role %s observes\n    with a local target:  %s\n    with a remote target: %s\n", role, strings.Join(lo[role], " ; "), strings.Join(re[role], " ; "))
 					}
@@ -533,6 +554,13 @@ func TestVerif_transparency(t *testing.T) {
 					}
 					if strings.Join(l["fwA"], "\n") != strings.Join(l["fwB"], "\n") {
 						diff += fmt.Sprintf("the local forwarder observes %s but the remote forwarder observes %s\n", strings.Join(l["fwA"], " ; "), strings.Join(l["fwB"], " ; "))
+					}
+				}
+				for _, l := range []map[string][]string{lo, re} {
+					for _, pr := range sc.Equal {
+						if strings.Join(l[pr[0]], "\n") != strings.Join(l[pr[1]], "\n") {
+							diff += fmt.Sprintf("%s and %s do the same thing from different systems but %s observes %s and %s observes %s\n", pr[0], pr[1], pr[0], strings.Join(l[pr[0]], " ; "), pr[1], strings.Join(l[pr[1]], " ; "))
+						}
 					}
 				}
 				if diff == "" {
